@@ -203,11 +203,12 @@ type c11Config struct {
 	testLvl  int // 0 none, 1 Message, 2 MessageFunc
 	execLvl  int // 0 none, 1 WithIssueFormatter, 2 WithErrFormatter (deprecated spelling)
 	expLang  string
+	saved    map[string]map[string]string // global == 2: the shipped templates, restored after the execution
 }
 
 func c11ChooseConfig(x *mc.X, e *c11Entry) *c11Config {
 	c := &c11Config{}
-	c.global = x.Choose(2, "global")
+	c.global = x.Choose(3, "global") // 0 stock, 1 i18n installed, 2 stock formatter with the shipped table edited in place (documented customisation)
 	c.expLang = "en"
 	c.langKey = "lang"
 	if c.global == 1 {
@@ -248,6 +249,29 @@ func (c *c11Config) install() {
 	} else {
 		conf.IssueFormatter = conf.DefaultIssueFormatter
 	}
+	if c.global == 2 {
+		// docs: "conf.DefaultIssueMessageMap[type][code] = ..." — every shipped template gets a placeholder appended
+		c.saved = map[string]map[string]string{}
+		for t, sec := range conf.DefaultIssueMessageMap {
+			c.saved[t] = map[string]string{}
+			for code, tmpl := range sec {
+				if code == zconst.IssueCodeFallback {
+					continue // the fallback text is used verbatim (never rendered): nothing the statement speaks about
+				}
+				c.saved[t][code] = tmpl
+				sec[code] = tmpl + " (got {{value}})"
+			}
+		}
+	}
+}
+
+func (c *c11Config) uninstall() {
+	for t, sec := range c.saved {
+		for code, tmpl := range sec {
+			conf.DefaultIssueMessageMap[t][code] = tmpl
+		}
+	}
+	c.saved = nil
 }
 
 func (c *c11Config) testOpts() []z.TestOption {
@@ -361,6 +385,7 @@ func c11Scenario(ei int) mc.Scenario {
 		place := x.Choose(3, "placement") // 0 top, 1 struct field, 2 slice element
 		cfg := c11ChooseConfig(x, &e)
 		cfg.install()
+		defer cfg.uninstall()
 		pre := c11PreHistory(x)
 		leaf := e.mk(cfg.testOpts()...)
 		var schema z.ZogSchema
